@@ -283,6 +283,48 @@ func init() {
 			}
 			return ret(e.newSlice(parts))
 		}
+		// structural split of a concatenation whose symbolic pieces provably hold no separator
+		if s.Op == "str.++" {
+			var pieces []*Term
+			var flat func(t *Term)
+			flat = func(t *Term) {
+				if t.Op == "str.++" {
+					for _, x := range t.Args {
+						flat(x)
+					}
+				} else {
+					pieces = append(pieces, t)
+				}
+			}
+			flat(s)
+			ok := true
+			for _, pc := range pieces {
+				if !pc.IsConst() && e.branch(tStrContains(pc, sep)) {
+					ok = false
+					break
+				}
+			}
+			if ok {
+				var parts []Val
+				cur := mkStr("")
+				for _, pc := range pieces {
+					if !pc.IsConst() {
+						cur = tStrConcat(cur, pc)
+						continue
+					}
+					segs := strings.Split(pc.Str, sep.Str)
+					for i, sg := range segs {
+						cur = tStrConcat(cur, mkStr(sg))
+						if i < len(segs)-1 {
+							parts = append(parts, cur)
+							cur = mkStr("")
+						}
+					}
+				}
+				parts = append(parts, cur)
+				return ret(e.newSlice(parts))
+			}
+		}
 		// symbolic: fork on the number of separators, up to splitBound components
 		var parts []Val
 		rest := s
